@@ -2,6 +2,8 @@ package main
 
 import (
 	"fmt"
+	"go/constant"
+	"go/types"
 	"sort"
 	"strings"
 
@@ -146,7 +148,8 @@ func fsEffects(w *World) []fsEffect {
 				if !isConst {
 					e.Kind = "create"
 				} else {
-					const oWRONLY, oRDWR, oCREATE, oEXCL, oTRUNC, oAPPEND = 0x1, 0x2, 0x40, 0x80, 0x200, 0x400
+					// the values of the os.O_* constants for the configuration being analysed
+					oWRONLY, oRDWR, oCREATE, oEXCL, oTRUNC, oAPPEND := osFlag(w, "O_WRONLY"), osFlag(w, "O_RDWR"), osFlag(w, "O_CREATE"), osFlag(w, "O_EXCL"), osFlag(w, "O_TRUNC"), osFlag(w, "O_APPEND")
 					if flags&(oWRONLY|oRDWR|oCREATE|oTRUNC|oAPPEND) == 0 {
 						return // read-only open
 					}
@@ -226,4 +229,16 @@ func classifyExec(w *World, cs CallSite) fsEffect {
 
 func (e fsEffect) key(w *World) string {
 	return fmt.Sprintf("%s %s", w.FuncName(e.Site.Fn), e.Callee)
+}
+
+// osFlag returns the value of an os.O_* constant in the loaded configuration.
+func osFlag(w *World, name string) int64 {
+	if p := w.All["os"]; p != nil {
+		if c, ok := p.Types.Scope().Lookup(name).(*types.Const); ok {
+			if v, ok := constant.Int64Val(c.Val()); ok {
+				return v
+			}
+		}
+	}
+	return 0
 }
